@@ -7,6 +7,8 @@ props = [json.loads(l)["id"] for l in open(os.path.join(ROOT, "properties.jsonl"
 TECH = "SMT-based bounded symbolic execution of the repository's go/ssa (gosym: re-execution DFS, z3 5.1.0 live over stdin, int-wrap encoding); counterexamples replayed natively"
 COMMON_TRUST = "Trusted: go/ssa construction (x/tools v0.29.0), gosym's SSA semantics, z3; environment models listed in the evidence file (badger = atomic key/value map, msgpack = ideal codec, signer/verifier test doubles where signatures are not the subject)."
 
+CR = "Results hold in the symbolic (Dolev-Yao) crypto model of DESIGN §2.7: SHA-256 is a collision-free uninterpreted function (the real digest on concrete inputs), Ed25519 is unforgeable for the declared honest keys with exclusive ownership of signatures, base58 is a bijection. Counterexamples are replayed natively with real wallets, real SHA-256 and real signatures. " + COMMON_TRUST
+
 claimed = {
  "C01": dict(
   text="validateLeaf (real ancestor-walker goroutine, real pourFunds/Supply/Drain, checkpoint read) is shown equivalent to the unbounded-integer predicate cp+inflow>=outflow for EVERY DAG shape with <=3 (quick) / <=4 (thorough) vertices after genesis, every tip, all canonical 64-bit amounts (currency<2^59 in shape harnesses, full width in the overflow harness), 3 symbolic wallets, with/without checkpoint entries and mixed data+spice tips; plus one-step checks of AddLeaf and CreateLeaf from every such ledger: only covered tips gain a child, failing tips are dropped with their index entry.",
